@@ -13,13 +13,13 @@ EXTENDS Integers, FiniteSets, TLC, Json
 Sizes == {<<1, 1>>, <<15, 16>>, <<16, 15>>, <<17, 17>>, <<33, 9>>, <<2, 31>>}
 Origins == {<<0, 0>>, <<1, 0>>, <<0, 1>>, <<3, 5>>}
 Margins == {<<0, 0>>, <<2, 0>>, <<0, 3>>, <<2, 3>>}
-Pads == {0, 4, 12}
+Pads == {0, 4, 6, 13}          \* extra bytes at the end of every row: none, whole pixels, and not a whole number of pixels
 Wrappers == {"concrete", "generic"}
 Types == {"NRGBA", "RGBA"}
 
 Layouts == [typ : Types, size : Sizes, org : Origins, mar : Margins, pad : Pads, wrap : Wrappers]
-\* a sub-image view exists only with a concrete parent; padding is expressed by a hand-made stride
-WellFormed(l) == (l.wrap = "generic" => l.org = <<0, 0>> /\ l.mar = <<0, 0>> /\ l.pad = 0)
+\* the generic wrapper hides the concrete type of whatever view it is given: its Bounds() start at org as well
+WellFormed(l) == TRUE
 
 ParentW(l) == l.org[1] + l.size[1] + l.mar[1]
 ParentH(l) == l.org[2] + l.size[2] + l.mar[2]
